@@ -198,8 +198,9 @@ func buildOperation(key string, r *expr.RouteExpr, bodies *EndpointBodies, rand 
 	// OpenAPI summary
 	var summary string
 	setSummary := func(meta expr.MetaExpr) {
-		for n, mdata := range meta {
-			if (n == "openapi:summary" || n == "swagger:summary") && len(mdata) > 0 {
+		// "openapi:summary" takes precedence over "swagger:summary"
+		for _, n := range []string{"swagger:summary", "openapi:summary"} {
+			if mdata := meta[n]; len(mdata) > 0 {
 				if mdata[0] == "{path}" {
 					summary = r.Path
 				} else {
@@ -403,8 +404,9 @@ func buildFileServerOperation(key string, fs *expr.HTTPFileServerExpr, api *expr
 	var summary string
 	{
 		summary = fmt.Sprintf("Download %s", fs.FilePath)
-		for n, mdata := range fs.Meta {
-			if (n == "openapi:summary" || n == "swagger:summary") && len(mdata) > 0 {
+		// "openapi:summary" takes precedence over "swagger:summary"
+		for _, n := range []string{"swagger:summary", "openapi:summary"} {
+			if mdata := fs.Meta[n]; len(mdata) > 0 {
 				summary = mdata[0]
 			}
 		}
